@@ -8,7 +8,7 @@ the verdict covers all strings of those lengths over any alphabet).  Reference: 
 import z3
 
 from .. import common, tree_harness as th
-from ..leaves import Pay, fresh_pay
+from ..leaves import Pay, fresh_pay, fresh_wide_pay
 from ..symx.core import Engine, explore, B, SInt, SBool, _wrapi, Unsupported
 
 PROP = "C11"
@@ -21,7 +21,7 @@ META = dict(
     assumptions=["alphabet size = len(a)+len(b): every equality pattern between the characters is realisable, so the verdict "
                  "holds for all strings of these lengths over any alphabet"],
     files=["graphtage/graphtage.py", "graphtage/levenshtein.py", "graphtage/bounds.py", "graphtage/edits.py"],
-    outside=["strings longer than the bound", "bytes objects"],
+    outside=["strings longer than the bound", "bytes objects", "4-byte code points and surrogates (widths 1-3 are in the domain)"],
 )
 
 
@@ -127,8 +127,12 @@ def run_job(job):
     reached = [0]
 
     def fn(eng):
-        a = fresh_pay(eng, 'a', n, 'str', alpha)
-        b = fresh_pay(eng, 'b', m, 'str', alpha)
+        if job.get('wide'):
+            a = fresh_wide_pay(eng, 'a', n, alpha)
+            b = fresh_wide_pay(eng, 'b', m, alpha)
+        else:
+            a = fresh_pay(eng, 'a', n, 'str', alpha)
+            b = fresh_pay(eng, 'b', m, 'str', alpha)
         eng.notes['ab'] = (a, b)
         return body(a, b)
 
@@ -170,6 +174,11 @@ def jobs(tier, seed):
         if n + m >= 8:
             j['split_depth'] = 8 if n + m < 10 else 11
         out.append(j)
+    # the same question over characters of UTF-8 width 1, 2 and 3 (minimality is counted in characters, never in bytes)
+    W = 3 if tier == 'quick' else 4
+    for n in range(1, W + 1):
+        for m in range(1, W + 1):
+            out.append(dict(lens=[n, m], wide=True, weight=(n + 1) * (m + 1)))
     return out
 
 
@@ -178,7 +187,8 @@ def bounds_text(tier):
     return (f"all string pairs with len(a), len(b) <= {N}, plus {N + 1}+k and k+{N + 1} for k <= 3"
             + ("" if tier == 'quick' else ", plus 7+2, 2+7, 7+1, 1+7, 8+1, 1+8") +
             "; every character symbolic over an alphabet of len(a)+len(b) letters; driven through StringNode.edits "
-            "(the path every diff uses)")
+            "(the path every diff uses); plus all pairs with 1 <= len(a), len(b) <= " + ("3" if tier == 'quick' else "4") +
+            " over three blocks of code points with UTF-8 widths 1, 2 and 3 (len(a)+len(b) characters per block)")
 
 
 def pre(tier, seed):
